@@ -48,7 +48,8 @@ Inductive event :=
 | ETun (now : N) (p hid : N)               (* packet from the TUN routed to p; hid = number of an initiation if created *)
 | EUapi (now : N) (p : N) (a : addr) (hid : N)  (* set public_key=p endpoint=a *)
 | EShiftHs (p d : N)                       (* hook VerifShiftHandshakeTimes *)
-| ERestart (now : N).                      (* Device.Down then Device.Up: every peer is stopped and started *)
+| ERestart (now : N)
+| ESetNonce (p : N).                       (* hook VerifSetSendNonce(p, RekeyAfterMessages + 1): the next data packet sent asks for a new handshake *)                      (* Device.Down then Device.Up: every peer is stopped and started *)
 
 Inductive output :=
 | OResp (to : addr) (p : N)
@@ -67,7 +68,8 @@ Record peer := {
   p_last_sent : N;               (* handshake.lastSentHandshake *)
   p_pending : option N;          (* outstanding own initiation (state InitiationCreated) *)
   p_prev : option sess; p_cur : option sess; p_next : option sess;
-  p_staged : N }.
+  p_staged : N;
+  p_rekey : bool }.              (* send counter of the current keypair above RekeyAfterMessages (hook VerifSetSendNonce) *)
 
 Definition dstate := list peer.
 
@@ -95,7 +97,7 @@ Definition send_to (x : peer) (o : addr -> output) (n : N) : list output :=
 Definition with_ep (x : peer) (a : option addr) : peer :=
   {| p_id := p_id x; p_endpoint := a; p_last_ts := p_last_ts x; p_last_consume := p_last_consume x;
      p_last_sent := p_last_sent x; p_pending := p_pending x; p_prev := p_prev x; p_cur := p_cur x;
-     p_next := p_next x; p_staged := p_staged x |}.
+     p_next := p_next x; p_staged := p_staged x; p_rekey := p_rekey x |}.
 
 Definition new_sess (sid : N) : sess := {| s_id := sid; s_filter := sempty |}.
 
@@ -125,7 +127,7 @@ Definition recv_init (st : dstate) (now : N) (m : imsg) (sid : N) : dstate * lis
       let x' := {| p_id := p_id x; p_endpoint := Some (i_src m); p_last_ts := i_ts m;
                    p_last_consume := now; p_last_sent := now; p_pending := None;
                    p_prev := None; p_cur := p_cur x; p_next := Some (new_sess sid);
-                   p_staged := p_staged x |} in
+                   p_staged := p_staged x; p_rekey := p_rekey x |} in
       (put_peer st x', [OResp (i_src m) (p_id x)])
   end.
 
@@ -155,7 +157,7 @@ Definition recv_resp (st : dstate) (now : N) (m : rmsg) (sid : N) : dstate * lis
       let x' := {| p_id := p_id x; p_endpoint := Some (r_src m); p_last_ts := p_last_ts x;
                    p_last_consume := p_last_consume x; p_last_sent := p_last_sent x; p_pending := None;
                    p_prev := match p_next x with Some s => Some s | None => p_cur x end;
-                   p_cur := Some (new_sess sid); p_next := None; p_staged := 0 |} in
+                   p_cur := Some (new_sess sid); p_next := None; p_staged := 0; p_rekey := false |} in
       (put_peer st x', send_to x' (fun a => OTransport a (p_id x)) n)
   end.
 
@@ -213,18 +215,18 @@ Definition recv_elem (st : dstate) (e : telem) : dstate * list output :=
           let x' := {| p_id := p_id x; p_endpoint := Some (t_src e); p_last_ts := p_last_ts x;
                        p_last_consume := p_last_consume x; p_last_sent := p_last_sent x;
                        p_pending := p_pending x; p_prev := p_cur x; p_cur := Some s'; p_next := None;
-                       p_staged := 0 |} in
+                       p_staged := 0; p_rekey := false |} in
           (put_peer st x', send_to x' (fun a => OTransport a (p_id x)) (p_staged x))
       | SCur =>
           (put_peer st {| p_id := p_id x; p_endpoint := Some (t_src e); p_last_ts := p_last_ts x;
                           p_last_consume := p_last_consume x; p_last_sent := p_last_sent x;
                           p_pending := p_pending x; p_prev := p_prev x; p_cur := Some s'; p_next := p_next x;
-                          p_staged := p_staged x |}, [])
+                          p_staged := p_staged x; p_rekey := p_rekey x |}, [])
       | SPrev =>
           (put_peer st {| p_id := p_id x; p_endpoint := Some (t_src e); p_last_ts := p_last_ts x;
                           p_last_consume := p_last_consume x; p_last_sent := p_last_sent x;
                           p_pending := p_pending x; p_prev := Some s'; p_cur := p_cur x; p_next := p_next x;
-                          p_staged := p_staged x |}, [])
+                          p_staged := p_staged x; p_rekey := p_rekey x |}, [])
       end
   end.
 
@@ -242,30 +244,42 @@ Definition send_staged (st : dstate) (now : N) (x : peer) (hid : N) : dstate * l
   else
     match p_cur x with
     | Some _ =>
+        (* the packets go out under the current keypair; then keepKeyFreshSending: a send counter above
+           RekeyAfterMessages asks for a new handshake, subject to the 5 s spacing *)
+        let rk := p_rekey x && negb (now - p_last_sent x <? RekeyTimeout) in
         let x' := {| p_id := p_id x; p_endpoint := p_endpoint x; p_last_ts := p_last_ts x;
-                     p_last_consume := p_last_consume x; p_last_sent := p_last_sent x;
-                     p_pending := p_pending x; p_prev := p_prev x; p_cur := p_cur x; p_next := p_next x;
-                     p_staged := 0 |} in
-        (put_peer st x', send_to x (fun a => OTransport a (p_id x)) (p_staged x))
+                     p_last_consume := p_last_consume x; p_last_sent := if rk then now else p_last_sent x;
+                     p_pending := if rk then Some hid else p_pending x;
+                     p_prev := p_prev x; p_cur := p_cur x; p_next := p_next x;
+                     p_staged := 0; p_rekey := p_rekey x |} in
+        (put_peer st x',
+         send_to x (fun a => OTransport a (p_id x)) (p_staged x) ++
+         (if rk then send_to x (fun a => OInit a (p_id x) hid) 1 else []))
     | None =>
         if now - p_last_sent x <? RekeyTimeout then (put_peer st x, [])
         else
           let x' := {| p_id := p_id x; p_endpoint := p_endpoint x; p_last_ts := p_last_ts x;
                        p_last_consume := p_last_consume x; p_last_sent := now;
                        p_pending := Some hid; p_prev := p_prev x; p_cur := p_cur x; p_next := p_next x;
-                       p_staged := p_staged x |} in
+                       p_staged := p_staged x; p_rekey := p_rekey x |} in
           (put_peer st x', send_to x (fun a => OInit a (p_id x) hid) 1)
     end.
 
 Definition with_staged (x : peer) (n : N) : peer :=
   {| p_id := p_id x; p_endpoint := p_endpoint x; p_last_ts := p_last_ts x; p_last_consume := p_last_consume x;
      p_last_sent := p_last_sent x; p_pending := p_pending x; p_prev := p_prev x; p_cur := p_cur x;
-     p_next := p_next x; p_staged := n |}.
+     p_next := p_next x; p_staged := n; p_rekey := p_rekey x |}.
 
 Definition shift_hs (x : peer) (d : N) : peer :=
   {| p_id := p_id x; p_endpoint := p_endpoint x; p_last_ts := p_last_ts x;
      p_last_consume := p_last_consume x - d; p_last_sent := p_last_sent x - d; p_pending := p_pending x;
-     p_prev := p_prev x; p_cur := p_cur x; p_next := p_next x; p_staged := p_staged x |}.
+     p_prev := p_prev x; p_cur := p_cur x; p_next := p_next x; p_staged := p_staged x; p_rekey := p_rekey x |}.
+
+Definition set_rekey (x : peer) : peer :=
+  {| p_id := p_id x; p_endpoint := p_endpoint x; p_last_ts := p_last_ts x; p_last_consume := p_last_consume x;
+     p_last_sent := p_last_sent x; p_pending := p_pending x; p_prev := p_prev x; p_cur := p_cur x;
+     p_next := p_next x; p_staged := p_staged x;
+     p_rekey := match p_cur x with Some _ => true | None => p_rekey x end |}.
 
 (* Peer.Stop (ZeroAndFlushAll: keypairs deleted, Handshake.Clear, staged packets dropped) followed by
    Peer.Start (lastSentHandshake := now - RekeyTimeout - 1 s).  What a restart KEEPS is what the
@@ -274,7 +288,7 @@ Definition shift_hs (x : peer) (d : N) : peer :=
 Definition restart_peer (now : N) (x : peer) : peer :=
   {| p_id := p_id x; p_endpoint := p_endpoint x; p_last_ts := p_last_ts x;
      p_last_consume := p_last_consume x; p_last_sent := now - (RekeyTimeout + 1000000000);
-     p_pending := None; p_prev := None; p_cur := None; p_next := None; p_staged := 0 |}.
+     p_pending := None; p_prev := None; p_cur := None; p_next := None; p_staged := 0; p_rekey := false |}.
 
 Definition step (st : dstate) (e : event) : dstate * list output :=
   match e with
@@ -299,10 +313,15 @@ Definition step (st : dstate) (e : event) : dstate * list output :=
       | None => (st, [])
       end
   | ERestart now => (map (restart_peer now) st, [])
+  | ESetNonce p =>
+      match find_peer st p with
+      | Some x => (put_peer st (set_rekey x), [])
+      | None => (st, [])
+      end
   end.
 
 (* Peer.Start: lastSentHandshake = start - (RekeyTimeout + 1 s) *)
 Definition peer0 (id : N) (ep : option addr) (now : N) : peer :=
   {| p_id := id; p_endpoint := ep; p_last_ts := 0; p_last_consume := 0;
      p_last_sent := now - (RekeyTimeout + 1000000000); p_pending := None;
-     p_prev := None; p_cur := None; p_next := None; p_staged := 0 |}.
+     p_prev := None; p_cur := None; p_next := None; p_staged := 0; p_rekey := false |}.
